@@ -72,7 +72,7 @@ def exact_cases(draw, max_width, max_gates, names=None):
     return c
 
 
-@part("cirq_exact", quick=500, thorough=150000)
+@part("cirq_exact", quick=500, thorough=400000)
 def cirq_exact(ctx):
     from tangelo.linq import get_backend
     mw, mg = (5, 12) if ctx.tier == "quick" else (7, 30)
@@ -99,7 +99,7 @@ def cirq_exact(ctx):
     ctx.search("cirq_exact", exact_cases(mw, mg), body)
 
 
-@part("cirq_unitary", quick=300, thorough=60000)
+@part("cirq_unitary", quick=300, thorough=150000)
 def cirq_unitary(ctx):
     import cirq
     from tangelo.linq import translate_circuit
@@ -124,7 +124,7 @@ def cirq_unitary(ctx):
     ctx.search("cirq_unitary", S.circuits(max_width=mw, max_gates=mg), body)
 
 
-@part("cirq_sampled", quick=120, thorough=12000)
+@part("cirq_sampled", quick=120, thorough=40000)
 def cirq_sampled(ctx):
     from tangelo.linq import get_backend
     mw, mg = (4, 10) if ctx.tier == "quick" else (6, 20)
@@ -170,7 +170,7 @@ def cirq_sampled(ctx):
 SYMPY_NAMES = [g for g in S.ALL_GATES if g not in S.SYMPY_UNSUPPORTED]
 
 
-@part("sympy_exact", quick=36, thorough=4000)
+@part("sympy_exact", quick=36, thorough=8000)
 def sympy_exact(ctx):
     from tangelo.linq import get_backend
     mw, mg = (3, 5) if ctx.tier == "quick" else (3, 7)
@@ -359,7 +359,7 @@ def cross_backend(ctx):
 # The simulated circuit must be the one the user built, whatever was derived from it in between: derive other circuits
 # (*, +, copy, inverse, stack, split), modify the derived objects in place, then simulate the original.
 
-@part("after_derivation", quick=160, thorough=6000)
+@part("after_derivation", quick=160, thorough=20000)
 def after_derivation(ctx):
     from tangelo.linq import get_backend, Gate, Circuit
 
